@@ -78,6 +78,24 @@ theorem line_roundtrip_partial (p : TP) (fuel : Nat) (name rest : Prom.Expo.Byte
     rw [enc] at hr
     exact tNextEntry_plain_line p fuel c0 n' v0 vt' rest hname.1 hname.2 hv0 hvt v hpf hl hr
 
+/-- the same with the non-negative millisecond timestamp the encoder appends (`name SP value SP ts LF`) -/
+theorem line_roundtrip_ts_partial (p : TP) (fuel : Nat) (name rest : Prom.Expo.Bytes) (m : Metric) (b v t : Nat)
+    (hname : legacyName name = true) (hl0 : m.lbls = []) (ht : m.ts = some (t : Int)) (htr : t ≤ maxI64) (hf : FloatTextOK b v)
+    (hl : p.lst = sInit) (hr : p.rest = textSample name [] m none b ++ rest) :
+    tNextEntry (fuel + 1) p =
+      .ok (some (.series name (buildLabels p.tu p.mtype [] name []) (if isNaNBits v then canonNaN else v) (some (t : Int)) none 0,
+                 { p with lst := sInit, rest := rest })) := by
+  obtain ⟨v0, vt', hw, hv0, hvt, hpf⟩ := hf
+  cases name with
+  | nil => simp [legacyName] at hname
+  | cons c0 n' =>
+    simp only [legacyName, Bool.and_eq_true, List.all_eq_true] at hname
+    have enc : textSample (c0 :: n') [] m none b ++ rest = c0 :: n' ++ 32 :: v0 :: vt' ++ 32 :: natDec t ++ 10 :: rest := by
+      simp [textSample, writeNameAndLabels, hl0, ht, hw, legacyName, writeName, hname.1, List.all_eq_true.mpr hname.2, intDec,
+        writeInt64_ofNat]
+    rw [enc] at hr
+    exact tNextEntry_ts_line p fuel c0 n' v0 vt' rest hname.1 hname.2 hv0 hvt v hpf t htr hl hr
+
 /-- the hypotheses are satisfiable: `1.5` is written as `1.5` and read back bit-exactly -/
 example : FloatTextOK 0x3ff8000000000000 0x3ff8000000000000 :=
   ⟨49, [46, 53], by decide, by decide, by decide, by decide⟩
